@@ -84,7 +84,16 @@ def run(ck, F, E):
                    "%s no longer reads its input through crunch_remaining_bytes()" % nm, b.span)
     cr = get_fn(ck, F, "Tokenizer::crunch_remaining_bytes")
     if cr is not None:
-        ck.require(bool(cr.calls_to("LineCruncher::new")) and bool(cr.calls_to("Tokenizer::remaining_bytes")),
+        # the bytes from the cursor on: remaining_bytes(), or the same slice spelled out (`&self.bytes()[self.index..]`)
+        rest = bool(cr.calls_to("Tokenizer::remaining_bytes"))
+        if not rest:
+            for c in cr.calls():
+                if c.callee.split("::")[-1] == "index" and len(c.args) > 1:
+                    r = strip_expr(cr.expr(c.args[1], depth=20))
+                    if r[0] == "agg" and str(r[1]).endswith("RangeFrom") and "index" in show(r) and \
+                            any(x[1].split("::")[-1] in ("bytes", "as_bytes") for x in expr_calls(cr.expr(c.args[0], depth=20))):
+                        rest = True
+        ck.require(bool(cr.calls_to("LineCruncher::new")) and rest,
                    "C12:CRUNCH:constructor", "raw-byte readers", "crunch_remaining_bytes = LineCruncher::new(remaining_bytes())",
                    "crunch_remaining_bytes no longer wraps the remaining bytes in a LineCruncher", cr.span)
 
